@@ -81,6 +81,11 @@ type SeataV1PackageHeader struct {
 }
 
 func (p *RpcPackageHandler) Read(ss getty.Session, data []byte) (interface{}, int, error) {
+	// the fixed header is not complete yet: need more data, consume nothing
+	if len(data) < Seatav1HeaderLength {
+		return nil, 0, nil
+	}
+
 	in := bytes.NewByteBuffer(data)
 
 	header := SeataV1PackageHeader{}
@@ -99,13 +104,19 @@ func (p *RpcPackageHandler) Read(ss getty.Session, data []byte) (interface{}, in
 	header.CodecType = bytes.ReadByte(in)
 	header.CompressType = bytes.ReadByte(in)
 	header.RequestID = bytes.ReadUInt32(in)
-	headMapLength := header.HeadLength - Seatav1HeaderLength
-	header.Meta = decodeHeapMap(in, headMapLength)
-	header.BodyLength = header.TotalLength - uint32(header.HeadLength)
+	// lengths that cannot belong to a frame: the subtractions below would wrap around
+	if header.HeadLength < Seatav1HeaderLength || header.TotalLength < uint32(header.HeadLength) {
+		return nil, 0, ErrInvalidPackage
+	}
 
+	// the frame is not complete yet: need more data, consume nothing
 	if uint32(len(data)) < header.TotalLength {
 		return nil, int(header.TotalLength), nil
 	}
+
+	headMapLength := header.HeadLength - Seatav1HeaderLength
+	header.Meta = decodeHeapMap(in, headMapLength)
+	header.BodyLength = header.TotalLength - uint32(header.HeadLength)
 
 	// r := byteio.BigEndianReader{Reader: bytes.NewReader(data)}
 	rpcMessage := message.RpcMessage{
